@@ -1190,7 +1190,9 @@ func (self *ArbiterVoter) DoProposal() error {
 		return errors.New("member accept proposal count too small")
 	}
 	self.glock.Lock()
-	self.proposalId = self.proposalIndex
+	if self.proposalId < self.proposalIndex {
+		self.proposalId = self.proposalIndex
+	}
 	self.glock.Unlock()
 	self.manager.slock.Log().Infof("Arbier voter do proposal succed, host %s aofId %s proposalId %d", self.voteHost, FormatAofId(self.voteAofId), self.proposalId)
 	return nil
